@@ -79,6 +79,13 @@ type parserBuilder struct {
 	payloadType   int8
 }
 
+// seriesKey names a time_series row: one per day, fingerprint and sample type
+type seriesKey struct {
+	date int64
+	fp   uint64
+	tp   uint8
+}
+
 type fpsCache map[int64]map[uint64]bool
 
 func newFpsCache() fpsCache {
@@ -111,6 +118,7 @@ type parserDoer struct {
 
 	res         chan *model.ParserResponse
 	tsSpl       *timeSeriesAndSamples
+	announced   map[seriesKey]bool
 	size        int
 	payloadType int8
 	profile     *model.ProfileData
@@ -182,6 +190,7 @@ func (p *parserDoer) doParseLogs() {
 	}
 
 	p.tsSpl = newTimeSeriesAndSamples(p.res, meta)
+	p.announced = map[seriesKey]bool{}
 
 	parser.SetOnEntries(p.onEntries)
 	p.tsSpl.reset()
@@ -339,9 +348,11 @@ func (p *parserDoer) onEntries(labels [][]string, timestampsNS []int64,
 		_labels := ""
 		for t, _ := range tps {
 			// series rows are written and selected per sample type, so is the announcement cache
-			if !tps[t] || !maybeAddFp(d, fp, uint8(t), p.ctx.fpCache) {
+			key := seriesKey{d.Unix(), fp, uint8(t)}
+			if !tps[t] || p.announced[key] || !maybeAddFp(d, fp, uint8(t), p.ctx.fpCache) {
 				continue
 			}
+			p.announced[key] = true
 			if _labels == "" {
 				_labels = encodeLabels(labels)
 			}
@@ -499,12 +510,25 @@ func withPayloadType(tp int8) buildOption {
 	}
 }
 
-func maybeAddFp(date time.Time, fp uint64, tp uint8, fpCache numbercache.ICache[uint64]) bool {
+func fpCacheKey(date time.Time, fp uint64, tp uint8) uint64 {
 	dateTS := date.Unix()
 	var bs [17]byte
 	copy(bs[0:8], unsafe.Slice((*byte)(unsafe.Pointer(&dateTS)), 16))
 	copy(bs[8:16], unsafe.Slice((*byte)(unsafe.Pointer(&fp)), 16))
 	bs[16] = tp
-	_fp := city.CH64(bs[:])
-	return !fpCache.CheckAndSet(_fp)
+	return city.CH64(bs[:])
+}
+
+// maybeAddFp reports whether the series row still has to be written. The cache entry is made by
+// ConfirmSeries once the row is stored: an entry made here would keep the row back for good
+// if its INSERT (or the rest of the request) fails.
+func maybeAddFp(date time.Time, fp uint64, tp uint8, fpCache numbercache.ICache[uint64]) bool {
+	return !fpCache.Has(fpCacheKey(date, fp, tp))
+}
+
+// ConfirmSeries records that the rows of ts have been inserted.
+func ConfirmSeries(ts *model.TimeSeriesData, fpCache numbercache.ICache[uint64]) {
+	for i, d := range ts.MDate {
+		fpCache.CheckAndSet(fpCacheKey(d, ts.MFingerprint[i], ts.MType[i]))
+	}
 }
